@@ -1,4 +1,46 @@
-(* C10 — theorems in progress; this file is replaced as they are proved *)
-From AB Require Import Check.WorldCheck.
-Theorem c10_placeholder : True. Proof. exact I. Qed.
-Print Assumptions c10_placeholder.
+(* C10 — logout: property theorems (proofs live in Proofs/LogoutProofs.v). *)
+From AB Require Import World.Handlers World.Step Proofs.EvLogic Proofs.LogoutProofs.
+
+(* Whatever the configuration, the request, the storage, the injected backend faults and the
+   state the handler starts from, and whatever way the logout handler ends (normally or with
+   the renderer's error in API mode), the session events it has appended are exactly:
+   delete everything outside the configured whitelist, delete the user id, delete the
+   half-auth mark, delete the last-action stamp — followed by nothing, or (form mode only) by
+   the success flash; and the cookie events it has appended are exactly: delete the
+   remember-me cookie.  The handler cannot end without having recorded all of them. *)
+Theorem c10_logout_events : forall E h r h', logout E h = (r, h') ->
+  exists tail ctail,
+    h_sev h' = h_sev h ++ [DelAll (bjoin ","%byte (c_whitelist (e_cfg E))); Del k_uid; Del k_halfauth; Del k_last_action] ++ tail /\
+    (tail = [] \/ tail = [Put k_flash_ok v_flash]) /\
+    h_cev h' = h_cev h ++ [Del k_rm] ++ ctail /\ ctail = [].
+Proof. exact logout_events_lemma. Qed.
+Print Assumptions c10_logout_events.
+
+(* What that event list does to ANY session jar when the reference store applies it: every
+   key still present afterwards is either a key that the store's own reading of the
+   whitelist (split of the comma-joined list) accepts and that is none of uid / halfauth /
+   last_action, or it is the success flash; and every such accepted key other than those
+   four keeps exactly the value it had.  So the user identity is gone, nothing outside the
+   whitelist is left, and whitelisted application data is untouched. *)
+Theorem c10_logout_jar : forall (j : amap) (wl : list bytes) (tail : list csevent),
+  (tail = [] \/ tail = [Put k_flash_ok v_flash]) ->
+  let j' := apply_events j ([DelAll (bjoin ","%byte wl); Del k_uid; Del k_halfauth; Del k_last_action] ++ tail) in
+  (forall k, ahas k j' = true ->
+     (bmem k (bsplit ","%byte (bjoin ","%byte wl)) = true /\ k <> k_uid /\ k <> k_halfauth /\ k <> k_last_action)
+     \/ k = k_flash_ok) /\
+  (forall k, bmem k (bsplit ","%byte (bjoin ","%byte wl)) = true ->
+     k <> k_uid -> k <> k_halfauth -> k <> k_last_action -> k <> k_flash_ok ->
+     alookup k j' = alookup k j).
+Proof. exact logout_jar_lemma. Qed.
+Print Assumptions c10_logout_jar.
+
+(* A request to the logout route whose method is not the configured logout method never
+   reaches the handler: the router answers 404 (405 for PUT) and no session event and no
+   cookie event of any kind is recorded (the predicate "False" holds of every recorded
+   event, so there is none), whatever else is in the request or the storage. *)
+Theorem c10_logout_wrong_method : forall E : env,
+  q_route (e_req E) = RLogout ->
+  meth_eqb (q_meth (e_req E)) (c_logout_method (e_cfg E)) = false ->
+  evs_all (fun _ => False) (fun _ => False) (serve E).
+Proof. exact logout_wrong_method_lemma. Qed.
+Print Assumptions c10_logout_wrong_method.
